@@ -107,3 +107,8 @@ def header_strvalue_roundtrip(key, value, tail):
     k = _read_string(fp)
     v = _read_string(fp)
     return k, v, fp.tell()
+
+
+# ---- C12: forward real FFT followed by the inverse (lengths only; against the two contracts)
+def rfft_ifft_length(ts):
+    return ts.rfft().ifft()
